@@ -13,6 +13,7 @@ var checks = map[string]func(tier string) int{
 	"C03": props.CheckC03,
 	"C04": props.CheckC04,
 	"C05": props.CheckC05,
+	"C06": props.CheckC06,
 	"C09": props.CheckC09,
 	"C10": props.CheckC10,
 	"C11": props.CheckC11,
